@@ -13,6 +13,7 @@ Record decl := { d_kind : dkind;
                  d_doc : string   (* CommentGroup.Text() of the doc comment, trimmed *);
                  d_rawdoc : string (* the lines of the doc comment as written, comment markers removed *);
                  d_body : string  (* for methods: the bytes strictly between the braces, trimmed *);
+                 d_results : string (* for methods: the result list as written, names included *);
                  d_src : string   (* the bytes from Pos() to End() *) }.
 
 Record rfile := { f_name : string; f_imports : list (string * string); f_decls : list decl;
